@@ -86,7 +86,7 @@ func c17PingDuringCall(c *vcore.Ctx) *vcore.Violation {
 func c17Run(c *vcore.Ctx) *vcore.Violation {
 	const prop = "C17"
 	src := c.Src
-	if src.Bool(1, 12, "ping_during_call") {
+	if src.Bool(1, 6, "ping_during_call") {
 		return c17PingDuringCall(c)
 	}
 	n := 2 + src.Int(9, "nruns")
